@@ -25,6 +25,24 @@ def histories(cfg, rep, workers=None):
     return r.printed_json()
 
 
+def simulated(rep, num, depth, seed):
+    """deep behaviours: TLC -simulate on the cache model; every state TLC generates on the way (the chosen successors and their
+    siblings) carries a real history; the deep ones are replayed"""
+    import random
+    r = core.tlc("trajectory", "Trajectory", "MC_traj_sim.cfg", workers=1, simulate="num=%d" % num, extra=["-depth", str(depth), "-seed", str(seed + 1)])
+    rep.add_tlc(r)
+    seen, out = set(), []
+    for c in r.printed_json():
+        if len(c["h"]) < 5:
+            continue
+        k = json.dumps(c, sort_keys=True)
+        if k not in seen:
+            seen.add(k)
+            out.append(c)
+    random.Random(seed).shuffle(out)
+    return out[:40000]
+
+
 def judge(rep, traces, cases, pid="C08"):
     probes = _probes(traces)
     rejects = core.validate("trajectory", "Trace_Trajectory", traces + probes)
@@ -48,8 +66,10 @@ def judge(rep, traces, cases, pid="C08"):
 
 def run(rep, tier, seed):
     rng = random.Random(seed)
-    cfg = "MC_traj_quick.cfg" if tier == "quick" else "MC_traj_thorough.cfg"
-    cases = histories(cfg, rep)
+    cases = histories("MC_traj_quick.cfg", rep)                 # every history of depth 3 over the full alphabet
+    if tier == "thorough":
+        cases += histories("MC_traj_thorough.cfg", rep)          # every history of depth 4 over the core alphabet
+        cases += simulated(rep, 400, 9, seed)                    # random deep behaviours (TLC -simulate) of the cache model
     if len(cases) < 1000:
         raise core.MachineryError("Trajectory model emitted only %d histories" % len(cases))
     rep.extra["m_histories"] = len(cases)
